@@ -506,11 +506,16 @@ let gen_tx_parts () : string * string * string * string option * noise =
   (body, wits, valid, aux, nz)
 
 let assemble (body, wits, valid, aux, _nz) : string =
-  let head, close = (match below 14 with
-      | 0 | 1 -> ("\x9f", "\xff") | 2 -> ("\x98\x04", "") | 3 -> ("\x99\x00\x04", "")
-      | 4 -> ("\x83", "") | 5 -> ("\x85", "") | 6 -> ("\x80", "") | 7 -> ("\x9b\x00\x00\x00\x00\x00\x00\x00\x04", "")
-      | _ -> ("\x84", "")) in
-  let valid = if chance 12 then "" else valid in                 (* the three-element form *)
+  let three = chance 12 in                                       (* the three-element legacy layout: no is_valid *)
+  let n = if three then 3 else 4 in
+  let head, close = (match below 16 with
+      | 0 | 1 | 2 -> ("\x9f", "\xff")
+      | 3 -> (Printf.sprintf "\x98%c" (Char.chr n), "") | 4 -> (Printf.sprintf "\x99\x00%c" (Char.chr n), "")
+      | 5 -> (Printf.sprintf "\x9a\x00\x00\x00%c" (Char.chr n), "")
+      | 6 -> (Printf.sprintf "\x9b\x00\x00\x00\x00\x00\x00\x00%c" (Char.chr n), "")
+      | 7 -> (String.make 1 (Char.chr (0x80 + [| 0; 2; 3; 4; 5 |].(below 5))), "")      (* possibly the wrong count *)
+      | _ -> (String.make 1 (Char.chr (0x80 + n)), "")) in
+  let valid = if three then "" else valid in
   let aux = (match aux with Some a -> a | None -> "\xf6") in
   let trail = if chance 10 then String.init (1 + below 4) (fun _ -> Char.chr (below 256)) else "" in
   head ^ body ^ wits ^ valid ^ aux ^ close ^ trail
